@@ -68,6 +68,13 @@ def near_misses(logic):
         ('not', ('bool', True)), ('not', ('bool', False)),
         ('imply', ('imply', p, q), p), ('imply', p, ('imply', q, p)),
     ]
+    # atom names that a lossy comparison could identify: leading zeros,
+    # case, trailing underscores, one name a prefix of the other
+    alike = ['p1', 'p01', 'p001', 'P1', 'p1_', 'p_1', 'p10', 'p', 'pp', 'Pp']
+    for nm in alike:
+        a = ('ap', nm)
+        out += [a, ('not', a), ('and', a, q), ('or', q, a),
+                ('imply', a, a)]
     if logic in ('LTL', 'CTLS'):
         out += [('U', p, q), ('R', p, q), ('U', q, p), ('X', p), ('F', p),
                 ('G', p), ('X', ('X', p)), ('U', ('U', p, q), p),
